@@ -72,7 +72,9 @@ def c44Show (count : Int) (fresh : Bool) : Res → String
     if fresh && count ≤ 0 then
       "ok all " ++ (if names.isEmpty then "-" else ",".intercalate ((sortNames names).map c44NameStr))
     else s!"ok {names.length}"
-  | .info isDir size => if isDir then "ok dir" else s!"ok file {size}"
+  | .info isDir size name =>
+    let nm := match name with | some n => " " ++ c44NameStr n | none => ""
+    (if isDir then "ok dir" else s!"ok file {size}") ++ nm
 
 def c44Slot (s : C44State) (tok : String) : Option Nat :=
   match tok.toNat? with
